@@ -199,6 +199,63 @@ class LabelSpec(Spec):
                 'nontrivial': nontrivial}
 
 
+def part_signature(parts):
+    return [p if isinstance(p, str) else (p.line_offset, tuple(p.orig_lines), tuple(p.want_lines or ())) for p in parts]
+
+
+class ReuseSpec(LabelSpec):
+    """histories on one docstring: parse it, let another consumer of the parser work on the same text (the extraction
+    of examples, which rebases the offsets of *its* parts), parse it again - every parse must give what the first
+    one gave (no result may be shared between callers)"""
+    title = 'repeated parsing of one docstring, interleaved with example extraction'
+
+    def __init__(self, name, max_len):
+        LabelSpec.__init__(self, name, max_len)
+        self.rule = self.rule.replace('non-trivial =', 'each parsed, then extracted with parse_docstr_examples (freeform and google), '
+                                      'then parsed twice more: all four part lists equal; non-trivial =')
+
+    def run_case(self, hist):
+        import io
+        import warnings
+        import contextlib
+        from xdoctest import parser as P
+        from xdoctest import exceptions, core
+        raw = []
+        for name in hist:
+            raw += [ln for ln, _ in BLOCKS[name]]
+        doc = '\n'.join(raw)
+        case = {'docstring': doc}
+        try:
+            first = part_signature(P.DoctestParser().parse(doc))
+        except exceptions.DoctestParseError:
+            return {'atoms': [], 'outcome': 'parse-error', 'case': case, 'nontrivial': 0}
+        except Exception as ex:
+            return {'atoms': [{'sig': 'reuse:raises:' + type(ex).__name__, 'msg': repr(ex)}], 'outcome': 'raises', 'case': case}
+        atoms = []
+        with contextlib.redirect_stdout(io.StringIO()), warnings.catch_warnings():
+            warnings.simplefilter('ignore')
+            for style in ('freeform', 'google'):
+                try:
+                    exs = list(core.parse_docstr_examples(doc, callname='f', style=style))
+                    for e in exs:
+                        e._parse()
+                except Exception:
+                    pass
+                for again in (1, 2):
+                    try:
+                        sig = part_signature(P.DoctestParser().parse(doc))
+                    except Exception as ex:
+                        sig = 'raises:' + type(ex).__name__
+                    if sig != first:
+                        atoms.append({'sig': 'reuse:parse-result-changes-after-extraction',
+                                      'msg': 'after parse_docstr_examples(style=%s), parse number %d gives %r, the first parse gave %r' % (
+                                          style, again, sig, first)})
+                        break
+                if atoms:
+                    break
+        return {'atoms': atoms, 'outcome': 'ok' if not atoms else 'bad', 'case': case, 'nontrivial': int(len(first) > 1)}
+
+
 def label_lines_state(S, name):
     """abstract successor used only for state counting in the parent"""
     prev, src_indent = S
@@ -220,5 +277,5 @@ def label_lines_state(S, name):
 
 def specs(tier):
     if tier == 'thorough':
-        return [LabelSpec('blocks<=5', 5), LabelSpec('blocks=6', 6, 2, min_len=6)]
-    return [LabelSpec('blocks<=4', 4), LabelSpec('blocks=5', 5, 2, min_len=5)]
+        return [LabelSpec('blocks<=5', 5), LabelSpec('blocks=6', 6, 2, min_len=6), ReuseSpec('reuse<=4', 4)]
+    return [LabelSpec('blocks<=4', 4), LabelSpec('blocks=5', 5, 2, min_len=5), ReuseSpec('reuse<=3', 3)]
